@@ -1,6 +1,6 @@
 (** C01 - property theorems (statements only; proofs live in the library files) *)
 From Coq Require Import ZArith NArith PArith List Bool.
-From Cohdl Require Import Vhdl.Value Vhdl.Syntax Vhdl.Sem Vhdl.DefAssign Vhdl.DeadVars Equiv.Explore Equiv.VhdlTS Equiv.RefTS Equiv.Monitor Equiv.StoreTS Models.Coro.
+From Cohdl Require Import Vhdl.Value Vhdl.Syntax Vhdl.Sem Vhdl.DefAssign Vhdl.DeadVars Equiv.Explore Equiv.VhdlTS Equiv.RefTS Equiv.Monitor Equiv.StoreTS Models.Coro Models.Lower Models.LowerProofs.
 Import ListNotations.
 
 (** The per-program obligation is a proof for all input sequences of all lengths: if the reflective
@@ -20,3 +20,29 @@ Theorem C01_normalisation_sound :
     traceA (sstep d mid) s ins = traceA (sstep_n d T mid) n ins.
 Proof. exact norm_traces_s. Qed.
 Print Assumptions C01_normalisation_sound.
+
+(** The programs quantifier, for the Gallina model [Lower.lower] of the compiler's lowering
+    (IrGenerator._apply_impl: open blocks, one new state per await / loop head, first-state special
+    case, code after a branching construct duplicated into every open block, continue = inlined loop
+    head): for EVERY program of the grammar [Lower.in_grammar] (Skip, Eff, Seq, If, While with
+    Break / Continue, always-false while, await cond / true / false; every continue separated from its
+    loop head by a clock; the interpreter fuel [Coro.ref_fuel] statically sufficient) and EVERY input
+    sequence of any length the lowered machine has the trace of the coroutine semantics.  The model is
+    tied to the real compiler per generated program (harness/c01.py, theorem case_low). *)
+Theorem C01_lower_correct :
+  forall p : stmt, in_grammar p = true ->
+  forall ins, traceB (mstepZ (lower p)) minitZ ins = traceB (ref_step p) rinit ins.
+Proof. exact lower_correct. Qed.
+Print Assumptions C01_lower_correct.
+
+Theorem C01_lower_correct_mstep :
+  forall p : stmt, in_grammar p = true ->
+  forall ins, traceB (mstep (lower p)) minit ins = traceB (ref_step p) rinit ins.
+Proof. exact lower_correct_mstep. Qed.
+Print Assumptions C01_lower_correct_mstep.
+
+(** non-vacuity of [in_grammar]: nested while / await / break / continue, at least 3 states *)
+Example C01_lower_nonvacuous :
+  in_grammar ex_prog = true /\ Nat.leb 3 (length (lower ex_prog)) = true.
+Proof. exact ex_prog_ok. Qed.
+Print Assumptions C01_lower_nonvacuous.
